@@ -463,6 +463,9 @@ def replay(w):
             for verts in ((w['l'], w['m'], w['r']), (300.0, 1000.0, 1900.0), (0.0, 500.0, 4000.0)):
                 if not (0 <= verts[0] < verts[1] < verts[2] <= 4000):
                     continue
+                # another bank of the same class (other rate, other vertices) was used earlier in the process
+                decoy = fc.real_handbuilt(C, _rate=16000, _analytic=w['analytic'], _vertices=(100.0, 2100.0, 7900.0))
+                decoy.get_frequency_response(0, width)
                 b = fc.real_handbuilt(C, _rate=8000, _analytic=w['analytic'], _vertices=verts)
                 full = b.get_frequency_response(0, width)
                 mel = scales.MelScaling().hertz_to_scale
